@@ -118,6 +118,7 @@ def runOp (env : Env) (v : Vec) (name : String) (args : List Nat) (o : List Outc
   | "remove", [i] => some ((pack showId (remove v i)).map fun (a, b, _) => (a, b, o))
   | "swap_remove", [i] => some ((pack showId (swapRemove v i)).map fun (a, b, _) => (a, b, o))
   | "push", [id] => some ((pack showUnit (push env v id)).map fun (a, b, _) => (a, b, o))
+  | "push_with", [id] => some ((pack showUnit (pushWith env v id)).map fun (a, b, _) => (a, b, o))
   | "insert", [i, id] => some ((pack showUnit (insert env v i id)).map fun (a, b, _) => (a, b, o))
   | "extend_clone", [n] => some (pack showUnit (extendFromSliceClone env v n o))
   | "resize", [n, id] => some (pack showUnit (resize env v n id o))
@@ -130,6 +131,7 @@ def runOp (env : Env) (v : Vec) (name : String) (args : List Nat) (o : List Outc
   | "reserve_exact", [n] =>
     some (.ok (match reserveExact env v n with | some v' => (v', "ret", o) | none => (v, "panic", o)))
   | "shrink_to_fit", [] => some (.ok (shrinkToFit env v, "ret", o))
+  | "shrink_to", [n] => some (.ok (shrinkTo env v n, "ret", o))
   | _, _ => none
 
 def showYields (l : List (Option Id)) : String :=
@@ -162,8 +164,17 @@ def runSpecial (env : Env) (v : Vec) (name : String) (args : List Nat) (o : List
     let src ← (kvOf rest "src").bind parseCsv
     let pulls := ((kvOf rest "pulls").bind String.toNat?).getD 0
     let hint := ((kvOf rest "hint").bind String.toNat?).getD 1000000
-    pure ((pack showYields (splice env v a b src hint (List.replicate pulls Pull.front))).map (fun (a, b, _) => (a, b, o)), false)
+    -- `lie=<n>`: the source reports `size_hint().0 = n` whatever it has left; `maxcap=`: `isize::MAX / size_of::<T>()`
+    let lie := (kvOf rest "lie").bind String.toNat?
+    let maxCap := ((kvOf rest "maxcap").bind String.toNat?).getD (2 ^ 59)
+    pure ((pack showYields (splice env v a b src hint lie maxCap (List.replicate pulls Pull.front))).map (fun (a, b, _) => (a, b, o)), false)
   | "into_flattened", [] => (runFlatten v o rest).map (·, false)
+  | "extend_iter", [] => do
+    let src ← (kvOf rest "src").bind parseCsv
+    let hint := ((kvOf rest "hint").bind String.toNat?).getD 1000000
+    let lie := (kvOf rest "lie").bind String.toNat?
+    let maxCap := ((kvOf rest "maxcap").bind String.toNat?).getD (2 ^ 59)
+    pure ((pack showUnit (extendIter env v src hint lie maxCap)).map (fun (a, b, _) => (a, b, o)), false)
   | "map_vec", [] => do
     let st ← (kvOf rest "st").bind String.toNat?
     let su ← (kvOf rest "su").bind String.toNat?
@@ -197,6 +208,8 @@ def runRevOp (env : Env) (v : Vec) (name : String) (args : List Nat) (o : List O
   match name, args with
   | "into_flattened", [] => (runFlatten v o rest).map (·, false)
   | "push", [id] => some (keep (pack showUnit (rpush env v id)), false)
+  | "push_with", [id] =>
+    some (keep (match rreserve env v 1 with | none => .ok (v, "panic", o) | some _ => pack showUnit (rpush env v id)), false)
   | "pop", [] => some (keep (pack showOptId (rpop v)), false)
   | "clear", [] => some (keep (pack showUnit (rclear env.bombs v)), false)
   | "truncate", [n] => some (keep (pack showUnit (rtruncate env.bombs v n)), false)
@@ -276,6 +289,28 @@ def handleSplit (d : DState) (name h : String) (rest : List String) : Option (DS
     | _ => none
   | _, _, _, _ => none
 
+/-- `via=try`: the operation went through its `try_*` twin.  Same model operation; only when the reservation
+    is refused does it differ: `Err(_)` is returned and the by-value arguments are dropped outside an unwind
+    (`tryRefusedExit`) -/
+def tryExit (env : Env) (k : Kind) (v : Vec) (name : String) (args : List Nat) (rest : List String) (exit : String) : String :=
+  if kvOf rest "via" != some "try" then exit
+  else
+    let res (n : Nat) : Bool := if k == .rev then (rreserve env v n).isNone else (reserve env v n).isNone
+    let resOne : Bool := if k == .rev then (rreserve env v 1).isNone else (reserveOne env v).isNone
+    let refusedArgs : Option (List Id) :=
+      match name, args with
+      | "push", [id] => if resOne then some [id] else none
+      | "insert", [i, id] => if i ≤ v.len ∧ resOne then some [id] else none
+      | "resize", [n, id] => if n > v.len ∧ res (n - v.len) then some [id] else none
+      | "append", [] =>
+        match (kvOf rest "src").bind parseCsv with
+        | some src => if res src.length then some src else none
+        | none => none
+      | _, _ => none
+    match refusedArgs with
+    | some a => showExit showUnit (tryRefusedExit env.bombs a)
+    | none => exit
+
 def handleOp (d : DState) (toks : List String) : DState × String :=
   match toks with
   | name :: h :: rest =>
@@ -299,6 +334,7 @@ def handleOp (d : DState) (toks : List String) : DState × String :=
           (del d h, s!"gone drops={csv v.dropLog} esc={csv v.escaped} exit={exit} used={o.length - restO.length}")
         | some (.ok (v, exit, restO), false) =>
           let v := normalise e.kind v
+          let exit := tryExit env e.kind (clearLogs e.vec) name args rest exit
           (put d { e with vec := clearLogs v }, report e.kind v exit (o.length - restO.length))
         | none =>
         match runOp env (clearLogs e.vec) name args o with
@@ -306,6 +342,7 @@ def handleOp (d : DState) (toks : List String) : DState × String :=
         | some (.error f) => (d, showFault f)
         | some (.ok (v, exit, restO)) =>
           let v := normalise e.kind v
+          let exit := tryExit env e.kind (clearLogs e.vec) name args rest exit
           (put d { e with vec := clearLogs v }, report e.kind v exit (o.length - restO.length))
       | _, _, _ => (d, "bad-op unparsable")
   | _ => (d, "bad-op")
